@@ -583,7 +583,18 @@ func (m *merge) finish(start time.Time, workdir string) int {
 	}
 
 	// violations → replay files
-	sort.SliceStable(m.viol, func(i, j int) bool { return m.viol[i].Aspect < m.viol[j].Aspect })
+	prio := func(a string) int {
+		if strings.HasPrefix(a, "panic") || strings.HasPrefix(a, "fatal") || strings.HasPrefix(a, "hang") || strings.HasPrefix(a, "race") || strings.HasPrefix(a, "alloc") {
+			return 0
+		}
+		return 1
+	}
+	sort.SliceStable(m.viol, func(i, j int) bool {
+		if pi, pj := prio(m.viol[i].Aspect), prio(m.viol[j].Aspect); pi != pj {
+			return pi < pj
+		}
+		return m.viol[i].Aspect < m.viol[j].Aspect
+	})
 	perAspect := map[string]int{}
 	written := 0
 	var replayPaths []string
